@@ -294,6 +294,11 @@ impl Runner {
         self.readers.len()
     }
 
+    /// (entitled contents, commits completed since it was opened) of every open reader
+    pub fn reader_models(&self) -> Vec<(&BucketM, u64)> {
+        self.readers.iter().map(|(_, m, id)| (m, self.stats.commits - *id)).collect()
+    }
+
     pub fn file_bytes(&self) -> Vec<u8> {
         read_db_file(&self.path, self.cfg.pagesize)
     }
